@@ -12,7 +12,11 @@ TEXT = {
                    "operator) and by faults injected in the atom seam (constructor / arithmetic / "
                    "comparison / function raising at the n-th event, incl. KeyboardInterrupt); for one "
                    "call per run the fault position sweeps every token of the expression. Each result is "
-                   "compared with a fresh instance given the same input and fault.",
+                   "compared with a fresh instance given the same input and fault; in addition fixed canary "
+                   "expressions (incl. ones sensitive to NumPy's floating-point error mode) must give, "
+                   "on every instance and at any time, the outcome recorded on a pristine instance at "
+                   "the start of the run (absolute reference against state shared by all instances). "
+                   "Seven configurations incl. an atom factory returning several classes.",
         level_note="Trusted: a fresh instance is the reference (history must not matter, by the "
                    "property); comparison is on repr of value / exception type and args. Sampled "
                    "histories, not all.",
@@ -27,7 +31,10 @@ TEXT = {
                    "found only by the final uniqueness check, malformed definition, unknown prefix), bodies "
                    "raise through several scopes (Exception and KeyboardInterrupt), DIP texts fail at "
                    "chosen lines. After every step the three tables are compared with the content "
-                   "recorded before the scope opened.",
+                   "recorded before the scope opened. Units are given in dict and Quantity form, with "
+                   "custom and built-in conversion classes; the same units dict object is reused by later "
+                   "scopes; a scope whose own exit raises, or that opens although one of its symbols "
+                   "already existed, is a violation.",
         level_note="Trusted: snapshot through public accessors of ParameterTable; overlapping (non-LIFO) "
                    "scopes and double close() are out of scope of the statement.",
         design_ref="4 (C09)"),
@@ -41,7 +48,10 @@ TEXT = {
                    "that raise; results enter the pool and are later converted in place, which is what "
                    "exposes state shared between a result and its operands. After every step every member "
                    "except the target of an explicitly in-place method must report exactly the same "
-                   "value(), units() and abse().",
+                   "value(), units() and abse(), the same kind of magnitude (float / Decimal / array), and "
+                   "the same units and value of its product with one candela (recomputed from the unit "
+                   "exponents, which are shared between results and operands). Arrays handed to the "
+                   "constructor by the caller must stay untouched.",
         level_note="Trusted: NumPy equality; a float that became an equal Decimal is not counted as a "
                    "change. Sampled histories, not all.",
         design_ref="4 (C07)"),
@@ -57,7 +67,8 @@ TEXT = {
                    "n*1e-12 (reciprocal rule 1/B/f(v); bare number to rad unchanged), B is conserved along "
                    "the chain (round trip and path independence); refused conversions (other dimension, "
                    "partially reciprocal, number to unit) must raise and leave value, units and "
-                   "uncertainty bit-identical.",
+                   "uncertainty bit-identical. Conversions to and from temporary custom units "
+                   "(UnitEnvironment scopes whose symbols recur with other magnitudes) are included.",
         level_note="Only the clauses about one mutable object through a history are decided; the factor "
                    "formula over all unit triples is sampled as a by-product, not covered. Magnitudes kept "
                    "within 1e+-290; offset/logarithmic units excluded by the statement; bare number to "
@@ -73,7 +84,9 @@ TEXT = {
                    "attribute / sort (with ties, reverse) and by operations that must fail (missing key, "
                    "position out of range, unknown column) and leave the object unchanged. Every public "
                    "accessor is compared with the model after every step; after sort the column must be "
-                   "monotone and the multiset of rows unchanged. The grid and combination clauses are "
+                   "monotone and the multiset of rows unchanged; malformed rows (too few values, a "
+                   "missing column) must be refused without a trace; plain, restarted, nested and zipped "
+                   "iteration over a table are compared with the model. The grid and combination clauses are "
                    "stateless and are enumerated exhaustively (n <= 40, columns <= 8, both orders, list "
                    "and dict data; all shapes of <= 3 lists of <= 3 items) - that part is plain "
                    "enumeration and is labelled so in the evidence.",
@@ -89,8 +102,9 @@ TEXT = {
         level_text="Exploration of seeded histories: up to 6 parse rounds per run, each 1-20 generated "
                    "statements (groups, typed definitions and declarations of bool / int / float / str "
                    "scalars and 1-D / 2-D arrays incl. sub-types, typed and untyped modifications with no "
-                   "unit / same unit / other unit of the same dimension / custom $unit, !constant) split "
-                   "over several add_string calls and chained on any earlier committed environment. The "
+                   "unit / same unit / other unit of the same dimension / custom $unit, !constant, in 40 % "
+                   "of the runs also options / conditions / formats) split over several add_string / "
+                   "add_file / add_unit calls and chained on any earlier committed environment. The "
                    "model predicts, statement by statement, the value in the definition's unit (0, "
                    "negatives, false, none included); faults are the four aborting assignments (other data "
                    "type, unit of another dimension or unit on a unit-less node, write to a constant, "
@@ -111,7 +125,9 @@ TEXT = {
                    "!format, bounded array dimensions, declarations; final values exactly on a closed "
                    "boundary in the node's own unit, well inside, or clearly (>= 1e-3) outside; "
                    "constraints attached in one round and violated by a modification in a later chained "
-                   "round. Oracles: the model's commit/abort verdict in both directions (reject and "
+                   "round; bounds written in other units and from a palette of recurring literals; "
+                   "imported copies of constrained nodes (and property lines attached to a copy only); "
+                   "typed re-definitions restating looser bounds. Oracles: the model's commit/abort verdict in both directions (reject and "
                    "accept), and an independent evaluator re-checks every returned environment against "
                    "all constraints its nodes carry, whatever the model predicted.",
         level_note="Values within 1e-3 relative of a boundary without sitting on it are treated as "
@@ -127,8 +143,10 @@ TEXT = {
                    "slices (arrays and strings), injections of file text, imports {?p.*} / {?p} / {?*} / "
                    "{s?...} below fresh groups, $source of DIP and text files in SimFS, chunks added by "
                    "add_file, modifications of source or host afterwards, rounds chained on any earlier "
-                   "environment. Faults: requests selecting none / unknown source / missing file (must "
-                   "abort; an empty import may abort or add nothing), ENOENT / EACCES / EIO / undecodable "
+                   "environment; imports onto existing paths (assignment of the imported value and unit); "
+                   "node-to-node comparison steps; registered callback functions (constant, reading a "
+                   "stored node, scribbling over their data, raising). Faults: requests selecting none / "
+                   "several / {?} outside a condition / unknown source / missing file (must abort; an empty import may abort or add nothing), ENOENT / EACCES / EIO / undecodable "
                    "on a chosen open, file content replaced between rounds. Oracles: values, units, types "
                    "and paths as the model predicts; after every round every earlier environment "
                    "(including the base) and its custom units report exactly their commit-time snapshot "
